@@ -222,6 +222,254 @@ def parseSelect (fuel : Nat) (ts : List Tok) : Except Err Query :=
           else .ok { proj := proj, rels := rels, cond := whereCond cs }
         | _ :: _ => .error .syntaxError
 
+/-! ## The lexer (`_TSQLLexer`): twenty ordered token classes, first match wins
+
+Hand-coded matchers stand for the regexes (DESIGN §3); they are tied to the real lexer by the
+correspondence run on every generated query text.  ASCII only. -/
+
+/-- a lexical token with its lexeme -/
+inductive LTok where
+  | fix (t : Tok)                 -- keywords, operators, parentheses, `*`, `.`
+  | str (s : List Char)           -- content between the quotes (DQSTRING / SQSTRING)
+  | ymd (s : List Char)           -- YYYYMMDD lexeme
+  | dmy (s : List Char)           -- DDMMYY lexeme
+  | kwdate (s : List Char)        -- `:today` / `now`
+  | int (s : List Char)           -- INT lexeme
+  | qid (a b : List Char)
+  | id (s : List Char)
+deriving Repr, DecidableEq
+
+def isLetterC (c : Char) : Bool := ('a' ≤ c && c ≤ 'z') || ('A' ≤ c && c ≤ 'Z')
+def isDigitC (c : Char) : Bool := '0' ≤ c && c ≤ '9'
+def isIdC (c : Char) : Bool := isLetterC c || isDigitC c || c = '-' || c = '_'
+def isSpaceC (c : Char) : Bool := c = ' ' || c = '\t' || c = '\n' || c = '\r' || c.toNat = 11 || c.toNat = 12
+
+/-- `s` minus the prefix `kw`, if `kw` is a prefix -/
+def dropPrefix? : List Char → List Char → Option (List Char)
+  | [], s => some s
+  | _ :: _, [] => none
+  | k :: kw, c :: s => if k = c then dropPrefix? kw s else none
+
+def monthNames3 : List (List Char) :=
+  ["jan".toList, "feb".toList, "mar".toList, "apr".toList, "may".toList, "jun".toList,
+   "jul".toList, "aug".toList, "sep".toList, "oct".toList, "nov".toList, "dec".toList]
+
+/-- exactly two digits -/
+def twoDigits : List Char → Option (List Char)
+  | a :: b :: r => if isDigitC a && isDigitC b then some r else none
+  | _ => none
+
+/-- `tt:tt` -/
+def hhmm (s : List Char) : Option (List Char) :=
+  match twoDigits s with
+  | some (':' :: r) => twoDigits r
+  | _ => none
+
+/-- `:tt` -/
+def colonTT : List Char → Option (List Char)
+  | ':' :: r => twoDigits r
+  | _ => none
+
+/-- the optional time `(?:\s*\(tt:tt(?::tt)?\)|\s+tt:tt(?::tt))?`: the rest after it -/
+def timeTail (s : List Char) : List Char :=
+  let s1 := s.dropWhile isSpaceC
+  let alt1 : Option (List Char) :=
+    match s1 with
+    | '(' :: r =>
+      match hhmm r with
+      | some r1 =>
+        (match colonTT r1 with
+          | some (')' :: r2) => some r2
+          | _ => none).orElse (fun _ => match r1 with | ')' :: r2 => some r2 | _ => none)
+      | none => none
+    | _ => none
+  let alt2 : Option (List Char) :=
+    if s1.length < s.length then
+      match hhmm s1 with
+      | some r1 => colonTT r1
+      | none => none
+    else none
+  match alt1.orElse (fun _ => alt2) with
+  | some r => r
+  | none => s
+
+/-- month of the date patterns: `[0-9][0-9]?` (greedy) or a lower-case month name -/
+def monthOpts (s : List Char) : List (List Char) :=
+  (match s with
+    | a :: b :: r => if isDigitC a && isDigitC b then [r] else []
+    | _ => []) ++
+  (match s with
+    | a :: r => if isDigitC a then [r] else []
+    | _ => []) ++
+  (match s with
+    | a :: b :: c :: r => if monthNames3.contains [a, b, c] then [r] else []
+    | _ => [])
+
+/-- YYYYMMDD: `[0-9]{4}-month(?:-[0-9]{1,2})?(?:time)?`; every part after the month is optional,
+so the first month alternative that matches decides -/
+def matchYMD (s : List Char) : Option (List Char) :=
+  match s with
+  | a :: b :: c :: d :: '-' :: r =>
+    if isDigitC a && isDigitC b && isDigitC c && isDigitC d then
+      match monthOpts r with
+      | r1 :: _ =>
+        let r2 := match r1 with
+          | '-' :: x :: y :: r' => if isDigitC x && isDigitC y then r' else if isDigitC x then y :: r' else r1
+          | '-' :: x :: r' => if isDigitC x then r' else r1
+          | _ => r1
+        some (timeTail r2)
+      | [] => none
+    else none
+  | _ => none
+
+def firstSome {α β} (f : α → Option β) : List α → Option β
+  | [] => none
+  | a :: as => match f a with
+    | some b => some b
+    | none => firstSome f as
+
+/-- DDMMYY: `(?:[0-9]{1,2}-)?month-(?:[0-9]{2})?[0-9]{2}(?:time)?` with the regex's backtracking
+order: day 2 digits / 1 digit / absent, month 2 digits / 1 digit / name, year 4 / 2 digits -/
+def matchDMY (s : List Char) : Option (List Char) :=
+  let dayOpts : List (List Char) :=
+    (match s with
+      | a :: b :: '-' :: r => if isDigitC a && isDigitC b then [r] else []
+      | _ => []) ++
+    (match s with
+      | a :: '-' :: r => if isDigitC a then [r] else []
+      | _ => []) ++ [s]
+  let year (r : List Char) : Option (List Char) :=
+    match r with
+    | '-' :: r' =>
+      (match twoDigits r' with
+        | some r2 => twoDigits r2
+        | none => none).orElse (fun _ => twoDigits r')
+    | _ => none
+  match firstSome (fun d => firstSome year (monthOpts d)) dayOpts with
+  | some r => some (timeTail r)
+  | none => none
+
+/-- the maximal identifier `[a-zA-Z][-_a-zA-Z0-9]*` at the front -/
+def idRun : List Char → Option (List Char × List Char)
+  | c :: r => if isLetterC c then some (c :: r.takeWhile isIdC, r.dropWhile isIdC) else none
+  | [] => none
+
+/-- a quoted string body up to the closing quote `q`: `[^q\\]*(?:\\.[^q\\]*)*q` -/
+def strBody (q : Char) : List Char → Option (List Char × List Char)
+  | [] => none
+  | c :: r =>
+    if c = q then some ([], r)
+    else if c = '\\' then
+      match r with
+      | d :: r' => (strBody q r').map (fun p => (c :: d :: p.1, p.2))
+      | [] => none
+    else (strBody q r).map (fun p => (c :: p.1, p.2))
+
+def lexemeOf (s rest : List Char) : List Char := s.take (s.length - rest.length)
+
+/-- tokens that start with a letter, in class order: from, where, report, and, or, not,
+DDMMYY (month name first), now, QID, ID -/
+def lexWord (s : List Char) : Option (LTok × List Char) :=
+  match dropPrefix? "from".toList s with
+  | some r => some (.fix .from_, r)
+  | none =>
+  match dropPrefix? "where".toList s with
+  | some r => some (.fix .where_, r)
+  | none =>
+  match dropPrefix? "report".toList s with
+  | some r => some (.fix .report, r)
+  | none =>
+  match dropPrefix? "and".toList s with
+  | some r => some (.fix .and_, r)
+  | none =>
+  match dropPrefix? "or".toList s with
+  | some r => some (.fix .or_, r)
+  | none =>
+  match dropPrefix? "not".toList s with
+  | some r => some (.fix .not_, r)
+  | none =>
+  match matchDMY s with
+  | some r => some (.dmy (lexemeOf s r), r)
+  | none =>
+  match dropPrefix? "now".toList s with
+  | some r => some (.kwdate "now".toList, r)
+  | none =>
+  match idRun s with
+  | none => none
+  | some (a, r) =>
+    match r with
+    | '.' :: r' =>
+      (match idRun r' with
+        | some (b, r'') => some (.qid a b, r'')
+        | none => some (.id a, r))
+    | _ => some (.id a, r)
+
+/-- tokens that start with a digit or a sign: YYYYMMDD, DDMMYY, INT -/
+def lexNum (s : List Char) : Option (LTok × List Char) :=
+  match matchYMD s with
+  | some r => some (.ymd (lexemeOf s r), r)
+  | none =>
+  match matchDMY s with
+  | some r => some (.dmy (lexemeOf s r), r)
+  | none =>
+    let body := match s with
+      | '+' :: r => r
+      | '-' :: r => r
+      | r => r
+    let ds := body.takeWhile isDigitC
+    if ds.isEmpty then none
+    else some (.int (lexemeOf s (body.dropWhile isDigitC)), body.dropWhile isDigitC)
+
+/-- the other token classes, in class order -/
+def lexSym : List Char → Option (LTok × List Char)
+  | '*' :: r => some (.fix .star, r)
+  | '.' :: r => some (.fix .dot, r)
+  | '=' :: '=' :: r => some (.fix (.op .eq2), r)
+  | '=' :: r => some (.fix (.op .eq1), r)
+  | '!' :: '=' :: r => some (.fix (.op .ne), r)
+  | '~' :: r => some (.fix (.op .re), r)
+  | '!' :: '~' :: r => some (.fix (.op .nre), r)
+  | '<' :: '=' :: r => some (.fix (.op .le), r)
+  | '<' :: r => some (.fix (.op .lt), r)
+  | '>' :: '=' :: r => some (.fix (.op .ge), r)
+  | '>' :: r => some (.fix (.op .gt), r)
+  | '&' :: '&' :: r => some (.fix .and_, r)
+  | '&' :: r => some (.fix .and_, r)
+  | '|' :: '|' :: r => some (.fix .or_, r)
+  | '|' :: r => some (.fix .or_, r)
+  | '!' :: r => some (.fix .not_, r)
+  | '(' :: r => some (.fix .lparen, r)
+  | ')' :: r => some (.fix .rparen, r)
+  | '"' :: r => (strBody '"' r).map (fun p => (.str p.1, p.2))
+  | '\'' :: r => (strBody '\'' r).map (fun p => (.str p.1, p.2))
+  | ':' :: r => (dropPrefix? "today".toList r).map (fun r' => (.kwdate ":today".toList, r'))
+  | _ => none
+
+/-- the token at the front of `s` (no leading white space); `none` = the UNEXPECTED class -/
+def lexAt (s : List Char) : Option (LTok × List Char) :=
+  match s with
+  | [] => none
+  | c :: _ =>
+    if isLetterC c then lexWord s
+    else if isDigitC c || c = '+' || c = '-' then lexNum s
+    else lexSym s
+
+/-- `prelex` on one line: white space is skipped, anything else must start a token -/
+def lexLine : Nat → List Char → Except Err (List LTok)
+  | 0, _ => .error .fuel
+  | n+1, s =>
+    match s.dropWhile isSpaceC with
+    | [] => .ok []
+    | s' =>
+      match lexAt s' with
+      | none => .error .syntaxError
+      | some (t, r) =>
+        if r.length < s'.length then
+          match lexLine n r with
+          | .error e => .error e
+          | .ok ts => .ok (t :: ts)
+        else .error .unmodelled
+
 /-! ## Databases -/
 
 inductive DType where | integer | string | date
